@@ -3,6 +3,8 @@
 
 package authip
 
+import "time"
+
 import (
 	"path"
 )
@@ -16,8 +18,27 @@ func VerifParseAuthIp(confPath, confName string) error {
 // VerifResetIpMap puts the package-level whitelist back to its zero state.
 func VerifResetIpMap() {
 	IpMap.enable = false
-	// the map grows in a background goroutine that holds a pointer to it: empty it in place
-	for kv := range IpMap.Iter() {
-		IpMap.Del(kv.Key)
+	// the map grows in a background goroutine that holds a pointer to it: empty it in place. A delete that
+	// overlaps such a resize can leave the deleted key in the new index (library behaviour), so let a resize
+	// started by the previous inserts finish first, and make sure nothing is found afterwards.
+	time.Sleep(time.Millisecond)
+	for round := 0; round < 50; round++ {
+		var keys []interface{}
+		for kv := range IpMap.Iter() {
+			keys = append(keys, kv.Key)
+		}
+		for _, k := range keys {
+			IpMap.Del(k)
+		}
+		stale := false
+		for _, k := range keys {
+			if _, ok := IpMap.Get(k); ok {
+				stale = true
+			}
+		}
+		if !stale && IpMap.Len() == 0 {
+			return
+		}
+		time.Sleep(time.Millisecond)
 	}
 }
